@@ -5,6 +5,7 @@ use std::{
 };
 
 use futures::FutureExt;
+use resolvo::runtime::AsyncRuntime as _;
 use resolvo::{NameId, Requirement, SolvableId, SolverCache, VersionSetId, VersionSetUnionId};
 use serde::{Deserialize, Serialize};
 use serde_json::json;
@@ -150,7 +151,7 @@ impl Monitor for C20 {
         "C20"
     }
     fn rule(&self) -> String {
-        "cases = seeded universes (hints All/Some/None, favored candidates that are not rank-first, random ranks, missing packages) and a random sequence of 40 SolverCache queries (candidates / matching / non-matching / sorted single / sorted union / dependencies, repeats frequent) on a bare SolverCache::new(provider); after every query the answer is compared with the reference (partition by filter_candidates, rank order with favored rotated to the front and the rest in unchanged relative order, union = concatenation in member order), are_dependencies_available_for is compared with (fetched or (package fetched and hinted)) for EVERY solvable, and at the end every slice reference returned earlier is re-read and the provider log is checked for a repeated get_candidates / get_dependencies. Second part: the same universe is solved with a provider whose sort_candidates queries the cache RE-ENTRANTLY (candidates of the package being sorted, dependencies of the solvables being sorted, matching / non-matching of other version sets), answers judged the same way and the solve result compared with a plain solve; the re-entrant solve is run synchronously AND under the manual executor with every callback suspending, where re-entrant requests race with the encoder's own (no provider call may be repeated). distinct = content hash incl. queries; non-trivial = case with a favored candidate that is not rank-first among queried packages and >= 1 repeated query".into()
+        "cases = seeded universes (hints All/Some/None, favored candidates that are not rank-first, random ranks, missing packages) and a random sequence of 40 SolverCache queries (candidates / matching / non-matching / sorted single / sorted union / dependencies, repeats frequent) on a bare SolverCache::new(provider); after every query the answer is compared with the reference (partition by filter_candidates, rank order with favored rotated to the front and the rest in unchanged relative order, union = concatenation in member order), are_dependencies_available_for is compared with (fetched or (package fetched and hinted)) for EVERY solvable, and at the end every slice reference returned earlier is re-read and the provider log is checked for a repeated get_candidates / get_dependencies. Second part: the same universe is solved with a provider whose sort_candidates queries the cache RE-ENTRANTLY (candidates of the package being sorted, dependencies of the solvables being sorted, matching / non-matching of other version sets), answers judged the same way and the solve result compared with a plain solve; the re-entrant solve is run synchronously AND under the manual executor with every callback suspending, where re-entrant requests race with the encoder's own (no provider call may be repeated). Third part: OVERLAPPING cache queries on a bare cache under the manual executor with a provider whose sort order depends on the cache's state at that moment (prefers candidates whose dependencies are available): 2-3 consumers of one requirement's sorted candidates plus dependency requests of its candidates, started in random order and completed in a scheduled order; all consumers and a later query must be told one identical list, a permutation of the matching candidates that the provider actually answered (favored first), without another sort_candidates call. distinct = content hash incl. queries; non-trivial = case with a favored candidate that is not rank-first among queried packages and >= 1 repeated query".into()
     }
     fn cases(&self, tier: Tier) -> u64 {
         tier.pick(160_000, 3_200_000)
@@ -402,6 +403,100 @@ impl Monitor for C20 {
             }
             for d in super::c10::duplicate_calls(&sess.log()) {
                 ctx.violation("provider asked twice (re-entrant use, async)", d);
+            }
+        }
+        // third part: OVERLAPPING queries on a bare cache under the manual executor, with a provider
+        // whose sort order depends on what the cache holds at that moment (it prefers candidates
+        // whose dependencies are available): several consumers ask for the sorted candidates of one
+        // requirement while dependency requests of its candidates complete in between. Every
+        // consumer and every later query must be told the same list, and that list must be one the
+        // provider actually answered (favored candidate moved to the front).
+        for q in c.queries.iter().filter(|q| matches!(q, Q::Sorted(_) | Q::SortedUnion(_))).take(2) {
+            let req = match q {
+                Q::Sorted(v) => Req::Single(*v),
+                Q::SortedUnion(un) => Req::Union(*un),
+                _ => unreachable!(),
+            };
+            let expected_set: BTreeSet<u32> = rf.sorted_req(req).into_iter().collect();
+            if expected_set.len() < 2 {
+                continue;
+            }
+            let mut rr = crate::gener::Rng::new(h ^ 0x0c20_0c20 ^ expected_set.len() as u64);
+            let prov = Prov::new(u.clone());
+            prov.pause_mask.set(PAUSE_ALL);
+            prov.stateful_sort.set(true);
+            let rt = crate::sched::ManualRt::new(prov.sched.clone(), random_policy(&mut rr));
+            let cache = SolverCache::new(prov);
+            let cref = &cache;
+            let r = catch(|| {
+                type Fut<'a> = std::pin::Pin<Box<dyn std::future::Future<Output = Option<Vec<u32>>> + 'a>>;
+                let mut futs: Vec<Fut> = vec![];
+                let consumers = 2 + rr.below(2) as usize;
+                for _ in 0..consumers {
+                    futs.push(Box::pin(async move { cref.get_or_cache_sorted_candidates(to_req(req)).await.ok().map(ids) }));
+                }
+                for &s in expected_set.iter().filter(|_| rr.chance(1, 2)).take(3) {
+                    futs.push(Box::pin(async move {
+                        let _ = cref.get_or_cache_dependencies(SolvableId(s)).await;
+                        None
+                    }));
+                }
+                // random start order
+                for i in (1..futs.len()).rev() {
+                    futs.swap(i, rr.below(i as u64 + 1) as usize);
+                }
+                let outs: Vec<Vec<u32>> = rt.block_on(futures::future::join_all(futs)).into_iter().flatten().collect();
+                let sorts_before = cref.provider().take_log().iter().filter(|e| matches!(e, Ev::Sort(_))).count();
+                let again = rt.block_on(cref.get_or_cache_sorted_candidates(to_req(req))).ok().map(ids);
+                let sorts_after = cref.provider().take_log().iter().filter(|e| matches!(e, Ev::Sort(_))).count();
+                (outs, again, sorts_after - sorts_before)
+            });
+            ctx.rep.evaluations += 1;
+            match r {
+                Caught::Ok((outs, again, new_sorts)) => {
+                    ctx.rep.count("overlapping-sorted-queries-with-a-state-dependent-sort");
+                    let log = cache.provider().take_log();
+                    let answers: Vec<Vec<u32>> = log.iter().filter_map(|e| if let Ev::SortRet(v) = e { Some(v.clone()) } else { None }).collect();
+                    if answers.iter().collect::<BTreeSet<_>>().len() > 1 {
+                        ctx.rep.count("overlapping:provider-gave-different-orders-for-one-input");
+                    }
+                    let first = outs.first().cloned().unwrap_or_default();
+                    if outs.iter().any(|o| *o != first) {
+                        ctx.violation("overlapping queries for one requirement were told different sorted candidates", format!("{:?}: {:?}", req, outs));
+                    }
+                    if again.as_ref() != Some(&first) {
+                        ctx.violation("a repeated query returns different sorted candidates than the overlapping queries were told", format!("{:?}: {:?} then {:?}", req, first, again));
+                    }
+                    if new_sorts != 0 {
+                        ctx.violation("repeated query consulted the provider again", format!("{:?}: sort_candidates called again", req));
+                    }
+                    let (mut a, mut b) = (first.clone(), rf.sorted_req(req));
+                    a.sort();
+                    b.sort();
+                    if a != b {
+                        ctx.violation("sorted candidates are not a permutation of the matching candidates", format!("{:?}: {:?}", req, first));
+                    }
+                    if let Req::Single(v) = req {
+                        // one of the provider's answers for this input, favored moved to the front
+                        let fav = u.pkgs[u.vsets[v as usize].name as usize].favored;
+                        let ok = answers.iter().filter(|a| a.iter().copied().collect::<BTreeSet<u32>>() == expected_set).any(|a| {
+                            let mut a = a.clone();
+                            if let Some(pos) = fav.and_then(|f| a.iter().position(|&x| x == f)) {
+                                a[..=pos].rotate_right(1);
+                            }
+                            a == first
+                        });
+                        if !ok {
+                            ctx.violation("sorted candidates are not an order sort_candidates answered (favored first)", format!("vs{v}: {:?}, provider answered {:?}", first, answers));
+                        }
+                    }
+                    for d in super::c10::duplicate_calls(&log) {
+                        ctx.violation("provider asked twice (overlapping cache queries)", d);
+                    }
+                }
+                Caught::Panic(pi) => ctx.violation(format!("panic in overlapping cache queries: {}", pi.signature()), format!("{:?}", req)),
+                Caught::Deadlock => ctx.violation("deadlock in overlapping cache queries", format!("{:?}", req)),
+                Caught::Budget => ctx.rep.count("overlapping:budget"),
             }
         }
         ctx.rep.sample(|| json!({"universe": universe_text(&u), "queries": c.queries.iter().take(10).map(|q| format!("{:?}", q)).collect::<Vec<_>>()}));
